@@ -79,12 +79,22 @@ def num_of(x):
     raise TypeError(type(x).__name__)
 
 
-def def_sx(p):
-    """decoded Job*ParameterDefinition -> wire form of `pdef`"""
+class _Lit:
+    def __init__(self, v):
+        self.value = v
+
+
+def def_sx(p, raw=None):
+    """decoded Job*ParameterDefinition -> wire form of `pdef`.  With the definition as the DOCUMENT has it (`raw`), what the
+    document says outright — type, objectType, dataFlow: enumerated words, nothing to interpret — is taken from there: a
+    decoder that rewrites them is then seen by the comparison instead of being believed."""
     ty = p.type.value
     numeric = ty in ("INT", "FLOAT")
     ot = getattr(p, "objectType", None)
     df = getattr(p, "dataFlow", None)
+    if isinstance(raw, dict) and raw.get("type") == ty:
+        ot = _Lit(raw["objectType"]) if isinstance(raw.get("objectType"), str) else None
+        df = _Lit(raw["dataFlow"]) if isinstance(raw.get("dataFlow"), str) else None
     return [
         core.cps(p.name),
         ty,
